@@ -60,7 +60,7 @@ int g_child_ran, g_child_sig; uint64_t g_child_val, g_child_last;
    !(__CPROVER_old(janet_vm.fiber) != (void *)0 && (__CPROVER_old((f)->gc.flags) & JANET_FIBER_FLAG_ROOT)))
 
 /* ---- assumed contracts ------------------------------------------------------------------------------------------- */
-int g_st0; uint64_t g_in0; int g_tup_calls;
+int g_st0; uint64_t g_in0; int g_tup_calls; int32_t g_stackn0;
 static JanetSignal fib_run_vm_c(JanetFiber *fiber, Janet in)
 /* PROVED at the call site: the automaton edge into ALIVE */
 __CPROVER_requires(FIB_ST(fiber->flags) == JANET_STATUS_ALIVE)
@@ -108,6 +108,9 @@ const uint8_t *fib_cstring_c(const char *str) __CPROVER_requires(1) __CPROVER_as
 /* janet_continue on the pending child, as seen from janet_continue_no_check of the parent. Same postconditions as
  * fib_continue_c below (which is proved); the child's own representation invariant is a heap invariant that is assumed. */
 JanetSignal fib_continue_child_c(JanetFiber *fiber, Janet in, Janet *out)
+/* C19: walking down a chain of suspended fibers is native recursion (janet_continue -> janet_continue_no_check -> ...): every
+ * level counts against JANET_RECURSION_GUARD, so the child is entered one level deeper than its parent was */
+__CPROVER_requires(janet_vm.stackn == g_stackn0 + 1)
 __CPROVER_requires(__CPROVER_rw_ok(fiber, sizeof(JanetFiber)))
 __CPROVER_requires(__CPROVER_rw_ok(out, sizeof(Janet)))
 __CPROVER_assigns(*fiber, *out, FIB_VM, g_child_ran, g_child_sig, g_child_val, g_child_last)
@@ -121,7 +124,7 @@ __CPROVER_ensures(janet_vm.root_fiber == __CPROVER_old(janet_vm.root_fiber) || g
  * ENFORCED version of the contract; where the contract REPLACES a call (units fib.continue, fib.continue_signal) the
  * ghosts are not constrained */
 #ifdef FIB_ENFORCE_NO_CHECK
-#define NO_CHECK_GHOSTS __CPROVER_requires(g_st0 == (int) FIB_ST(fiber->flags) && g_in0 == JBITS(in) && g_tup_calls == 0)
+#define NO_CHECK_GHOSTS __CPROVER_requires(g_st0 == (int) FIB_ST(fiber->flags) && g_in0 == JBITS(in) && g_tup_calls == 0 && g_stackn0 == janet_vm.stackn)
 #else
 #define NO_CHECK_GHOSTS
 #endif
